@@ -843,3 +843,35 @@ macro_rules! c13_stale {
         }
     };
 }
+
+// ---- instances generated by the driver ----
+c13_stale!(c13_stale_worker_len1, 1, 12);
+
+/// Test generated for harness `worker::verif_harness::c13_stale_worker_len1` 
+///
+/// Check for `cover`: "witness: newer upload completed, stale worker finished"
+///
+/// # Warning
+///
+/// Concrete playback tests combined with stubs or contracts is highly
+/// experimental, and subject to change.
+///
+/// The original harness has stubs which are not applied to this test.
+/// This may cause a mismatch of non-deterministic values if the stub
+/// creates any non-deterministic value.
+/// The execution path may also differ, which can be used to refine the stub
+/// logic.
+
+#[test]
+fn kani_concrete_playback_c13_stale_worker_len1_5966627360529370797_0() {
+    let concrete_vals: Vec<Vec<u8>> = vec![
+        // 1
+        vec![1],
+        // 1
+        vec![1],
+        // 0
+        vec![0],
+    ];
+    kani::concrete_playback_run(concrete_vals, c13_stale_worker_len1);
+}
+
